@@ -5,7 +5,7 @@ import vlib
 
 CLOSURE = ["Model/Lock.v", "Proofs/LockP.v", "Proofs/LockPrefix.v"]
 OBLIGATIONS = ["repo_facts_wellformed", "repo_well_locked", "repo_wrappers_registered", "repo_no_escape", "repo_race_free",
-               "repo_one_lock_at_a_time", "repo_fetchers_confined"]
+               "repo_one_lock_at_a_time", "repo_fetchers_confined", "repo_no_blocking_send_under_lock"]
 L2_OVERLAY = {"internal/layer2/zz_verif.go": os.path.join(vlib.VERIF, "harness/internal/layer2/zz_verif.go")}
 
 
@@ -68,6 +68,9 @@ def run(ctx):
             broken.append("repo_one_lock_at_a_time: %s hold two mutexes at once or invoke a callback under an inner mutex" % diag.get("D_nested"))
         if diag.get("D_confined") != "true" or diag.get("D_wired") != "true":
             broken.append("repo_fetchers_confined: fetchers touching unguarded receiver fields: %s; wired=%s" % (diag.get("D_unconfined"), diag.get("D_wired")))
+        if diag.get("D_send") != "true":
+            broken.append("repo_no_blocking_send_under_lock: %s perform a blocking channel send while holding a mutex the channel's consumer acquires "
+                          "(defers run LIFO: a defer registered after `defer Unlock()` runs before the unlock)" % diag.get("D_blocking_senders"))
         if rc != 0 and not broken:
             broken.append("RepoLock.v failed: " + out[-800:])
         if broken:
@@ -152,5 +155,5 @@ def run(ctx):
     ctx.finish(len(allrounds) + len(OBLIGATIONS), distinct,
                "race rounds: 240/300 (thorough 1200/1500) generated events per round delivered by 4-8 goroutines through the real k8s.Listener wrappers, 3 reconciler-like goroutines "
                "consuming CountersForPool / GetStatus / PeersForService (+ the spam loop's gratuitous), under go test -race, final state vs serial replay in recorded acquisition order; "
-               "non-trivial = final state holds at least one assignment / announcement; distinct by seed+state; plus the 7 vm_compute obligations on the facts regenerated from the Go AST",
+               "non-trivial = final state holds at least one assignment / announcement; distinct by seed+state; plus the 8 vm_compute obligations on the facts regenerated from the Go AST",
                [{"seed": r["in"]["seed"], "workers": r["in"]["workers"], "events": r["in"]["events"]} for r in allrounds[:3]], search=search)
